@@ -19,13 +19,13 @@ def gen_cases(run, module, cfg, name=None, workers=None, timeout=3000, simulate=
 
 def replay_load(run, cases, trace_module, trace_cfg, build_features=("json",), variant="json", fmt="json",
                 skip_icu=False, tag="", per_case_timeout=20, key_of=None, perm_seed=None, keep_dirs=False,
-                trace_env=None):
+                trace_env=None, package="drv_parser"):
     """cases: list of case dicts; each becomes a project directory parsed with parse_locales.
     A case with a "mode": "value" field is instead sent to ParsedValue::new (field "s")."""
     wd = os.path.join(run.workdir, "load" + tag)
     shutil.rmtree(wd, ignore_errors=True)
     os.makedirs(wd)
-    binary = vp.cargo_build("drv_parser", build_features, variant=variant)
+    binary = vp.cargo_build(package, build_features if package == "drv_parser" else (), variant=variant if package == "drv_parser" else None)
     rows = []
     for i, c in enumerate(cases):
         c["id"] = i + 1
@@ -50,7 +50,7 @@ def replay_load(run, cases, trace_module, trace_cfg, build_features=("json",), v
     run.cases += len(rows)
     events = {}
     if rejects:
-        events = {e["case"]: e for e in vp.read_ndjson(trace_path) if e.get("ev") in ("Load", "Crash", "Value")}
+        events = {e["case"]: e for e in vp.read_ndjson(trace_path) if e.get("ev") in ("Load", "Crash", "Value", "Build")}
     for r in rejects:
         c = cases[r["case"] - 1]
         key = key_of(c, r) if key_of else vp.fingerprint({"abs": c.get("abs"), "tags": sorted(r["tags"])[:1]})
